@@ -25,7 +25,7 @@ pub struct C12Case {
     pub cap: usize,
 }
 
-pub const FAMILIES: &[(&str, u64)] = &[("tiny", 3), ("tiny-hints", 2), ("tiny-soft", 3), ("medium", 2), ("conf", 2), ("conf-soft", 2), ("conf-hints", 1), ("deep", 1)];
+pub const FAMILIES: &[(&str, u64)] = &[("tiny", 3), ("tiny-hints", 2), ("tiny-soft", 3), ("medium", 2), ("conf", 2), ("conf-soft", 2), ("conf-hints", 1), ("deep", 1), ("many-soft-hints", 1), ("hub-hints", 1)];
 
 fn same_result(a: &Outcome, b: &Outcome) -> bool {
     match (a, b) {
@@ -49,7 +49,7 @@ impl Monitor for C12 {
         "C12"
     }
     fn rule(&self) -> String {
-        "cases = seeded universes (incl. soft lists and hints); for each case a baseline run counts the cancellation polls P, then the case is re-run for EVERY poll index k < min(P, cap) with the signal first firing at poll k (sticky for even k, transient for odd k), synchronously and under 2 async policies (signal arrives while sibling futures are parked). The cancel value is the unique integer k. Oracle per (case, mode, k): if the signal fired: result is Cancelled carrying exactly k, and no get_candidates/get_dependencies call event follows the firing poll in the log; If it never fired (async order moved the polls): result equals the baseline of that mode. Then, for EVERY provider callback event j < cap (call and return events of get_candidates / get_dependencies / filter / sort), the case is re-run with the signal raised for good while the provider handles event j: no get_candidates/get_dependencies call may start after the raise (each is documented to be preceded by a poll), the result must be Cancelled with the value of the first poll that observed it, and (hook H3, a counter of propagation rounds sampled at every provider event) every propagation round begins with a poll. Separately: a provider that is polled but never fires gives the same result as the baseline. distinct = (content hash, mode, k); non-trivial = fired with >= 1 sibling future parked, or inside a soft-requirement phase".into()
+        "cases = seeded universes (incl. soft lists and hints); for each case a baseline run counts the cancellation polls P, then the case is re-run for EVERY poll index k < min(P, cap) (plus 8 sampled indices beyond the cap when P is larger) with the signal first firing at poll k (sticky for even k, transient for odd k), synchronously and under 2 async policies (signal arrives while sibling futures are parked). The cancel value is the unique integer k. Oracle per (case, mode, k): if the signal fired: result is Cancelled carrying exactly k, and no get_candidates/get_dependencies call event follows the firing poll in the log; If it never fired (async order moved the polls): result equals the baseline of that mode. Then, for EVERY provider callback event j < cap (call and return events of get_candidates / get_dependencies / filter / sort), the case is re-run with the signal raised for good while the provider handles event j: no get_candidates/get_dependencies call may start after the raise (each is documented to be preceded by a poll), the result must be Cancelled with the value of the first poll that observed it, and (hook H3, a counter of propagation rounds sampled at every provider event) every propagation round begins with a poll. Separately: a provider that is polled but never fires gives the same result as the baseline. distinct = (content hash, mode, k); non-trivial = fired with >= 1 sibling future parked, or inside a soft-requirement phase".into()
     }
     fn cases(&self, tier: Tier) -> u64 {
         tier.pick(12_000, 240_000)
@@ -79,7 +79,16 @@ impl Monitor for C12 {
             round_faults(&bs, &format!("mode {:?}, baseline", mode), ctx);
             let npolls = bs.prov().polls.get();
             ctx.rep.max("max-polls-in-baseline", npolls as u64);
-            for k in 0..npolls.min(c.cap) {
+            // every index below the cap, plus a sample of later ones (long runs have hundreds of polls)
+            let mut ks: Vec<usize> = (0..npolls.min(c.cap)).collect();
+            if npolls > c.cap {
+                let mut rr = crate::gener::Rng::new(h ^ mi as u64);
+                for _ in 0..8 {
+                    ks.push(c.cap + rr.below((npolls - c.cap) as u64) as usize);
+                }
+                ctx.rep.count("cases-with-polls-beyond-the-cap (sampled there)");
+            }
+            for k in ks {
                 ctx.rep.evaluations += 1;
                 let cancel = if k % 2 == 0 { Cancel::Sticky(k) } else { Cancel::Transient(k) };
                 let opts = SolveOpts { cancel, ..base_opts.clone() };
@@ -152,7 +161,14 @@ impl Monitor for C12 {
             // metadata request is never turned into a result without a poll
             let nevents = bs.prov().cb_events.get();
             ctx.rep.max("max-callback-events-in-baseline", nevents as u64);
-            for j in 0..nevents.min(c.cap) {
+            let mut js: Vec<usize> = (0..nevents.min(c.cap)).collect();
+            if nevents > c.cap {
+                let mut rr = crate::gener::Rng::new(h ^ 0x77 ^ mi as u64);
+                for _ in 0..8 {
+                    js.push(c.cap + rr.below((nevents - c.cap) as u64) as usize);
+                }
+            }
+            for j in js {
                 ctx.rep.evaluations += 1;
                 let cancel = Cancel::RaisedAt(j);
                 let opts = SolveOpts { cancel, ..base_opts.clone() };
